@@ -379,19 +379,28 @@ def generate_macro_application(
     macro_code = macro_def.block
     macro_args = macro_def.args
     macro_args_values = node.args
+    # arguments belong to the call site: evaluate them before entering the application scope,
+    # where an earlier parameter of the same name would capture them.
+    evaluated_args: list[int | BlockAstNode | None] = []
+    for index, _ in enumerate(macro_args):
+        value = macro_args_values[index]
+        if isinstance(value, BlockAstNode):
+            evaluated_args.append(value)
+        else:
+            try:
+                evaluated_args.append(eval_expression(value, resolver))
+            except SymbolNotDefined:
+                evaluated_args.append(None)
     resolver.append_scope()
     resolver.use_next_scope()
     code.append(ScopeNode(resolver))
     for index, arg in enumerate(macro_args):
-        value = macro_args_values[index]
-        try:
-            if isinstance(value, BlockAstNode):
-                resolver.current_scope.add_symbol(arg, value)
-            else:
-                resolver.current_scope.add_symbol(arg, eval_expression(value, resolver))
-        except SymbolNotDefined:
+        evaluated = evaluated_args[index]
+        if evaluated is not None:
+            resolver.current_scope.add_symbol(arg, evaluated)
+        else:
             # defer the resolve to the emit part.
-            code.append(SymbolNode(arg, value, resolver))
+            code.append(SymbolNode(arg, macro_args_values[index], resolver, in_parent_scope=True))
     code += _code_gen(macro_code.body, resolver, macro_definitions)
     code.append(PopScopeNode(resolver))
     resolver.restore_scope()
